@@ -14,8 +14,10 @@ package c02
 //     abstract position whose __typename is absent / not a string / not a possible type.
 // Some positions are *tolerated* offenders: the statement does not say whether the value must
 // be rejected, so both forwarding it unchanged and treating it as ill-typed are accepted
-// (non-integral or out-of-range number for Int, non-string non-integer for ID, a concrete
-// object whose __typename names another type).
+// (non-integral or out-of-range number for Int, non-string non-integer for ID). A string
+// __typename that does not name a possible type is an offender at concrete positions too (the
+// root object excepted: its plan node has no type guard and nothing selects through it), and a
+// selected __typename field (aliased or not) must deliver a possible type name.
 
 import (
 	"fmt"
@@ -63,6 +65,7 @@ type wctx struct {
 	inAbs     bool
 	depth     int
 	isItem    bool
+	tnNames   []string // the position is a selected __typename field: the possible type names of its object
 }
 
 // rootCtx: the data entry is the outermost nullable position; the root object itself is not
@@ -97,7 +100,14 @@ func (c wctx) field(parent *gast.Type, key, cell string, abstract bool) wctx {
 	n.inAbs = abstract
 	n.depth = c.depth + 1
 	n.isItem = false
+	n.tnNames = nil
 	return n
+}
+
+// typenameField marks the context of a selected __typename field of an object declared as def.
+func (c wctx) typenameField(names []string) wctx {
+	c.tnNames = names
+	return c
 }
 
 type leafClass int
@@ -193,6 +203,11 @@ func (m *model) offenders(t *gast.Type, sets []gast.SelectionSet, v *jv, c wctx,
 			add("type", what, false)
 		case leafTolerated:
 			add("type", what, true)
+		default:
+			// a __typename value must name a possible type of its object
+			if c.tnNames != nil && v.k == jStr && !contains(c.tnNames, v.s) {
+				add("type", "typename-field-invalid-name", false)
+			}
 		}
 		return
 	}
@@ -205,19 +220,20 @@ func (m *model) offenders(t *gast.Type, sets []gast.SelectionSet, v *jv, c wctx,
 		add("type", "typename-"+typenameProblem(v), false)
 		return
 	}
-	if tn := v.get("__typename"); def.Kind == gast.Object && tn != nil && tn.k == jStr && tn.s != def.Name && len(c.path) > 0 {
-		add("type", "concrete-typename-mismatch", true)
-	}
 	abstract := def.Kind != gast.Object
+	names := possibleNames(m.s, def)
 	for _, f := range m.collect(sets, rt) {
 		if f.name == "__typename" && rt == m.rootName() {
 			continue
 		}
 		cell := "typename"
+		fc := c.field(t, f.key, cell, abstract)
 		if f.fieldDef != nil {
-			cell = m.cellOf(f.typ)
+			fc.cell = m.cellOf(f.typ)
+		} else {
+			fc = fc.typenameField(names)
 		}
-		m.offenders(f.typ, f.sets, v.get(f.key), c.field(t, f.key, cell, abstract), out)
+		m.offenders(f.typ, f.sets, v.get(f.key), fc, out)
 	}
 }
 
@@ -322,6 +338,14 @@ func (c *checker) compare(t *gast.Type, sets []gast.SelectionSet, o, v *jv, x wc
 			c.bad("kind", x.path, "", "clause 2: ill-typed value at %s (%s): %s", at, what, clip(o.String()))
 			return
 		}
+		if x.tnNames != nil && o.k == jStr && !contains(x.tnNames, o.s) {
+			kind := "typename-value"
+			if jsonEqual(o, v) && lastKey(x.path) != "__typename" {
+				kind = "typename-value-forwarded-alias" // the subgraph's value under an alias key, unchanged
+			}
+			c.bad(kind, x.path, lastKey(x.path), "clause 2: __typename value %s at %s is not a possible type name %v", clip(o.String()), at, x.tnNames)
+			return
+		}
 		if !jsonEqual(o, v) {
 			c.bad("leaf-differs", x.path, "", "clause 3/4: value at %s differs from the subgraph value: out %s, subgraph %s", at, clip(o.String()), clip(v.String()))
 		}
@@ -337,7 +361,7 @@ func (c *checker) compare(t *gast.Type, sets []gast.SelectionSet, o, v *jv, x wc
 	}
 	rt, ok := c.m.runtimeType(def, v)
 	if !ok {
-		c.bad("abstract-unknown-type-rendered", x.path, "", "clause 2: object rendered at abstract position %s although its runtime type is unknown (__typename %s)", at, typenameProblem(v))
+		c.bad("abstract-unknown-type-rendered", x.path, "", "clause 2: object rendered at %s although its runtime type is unknown (__typename %s)", at, typenameProblem(v))
 		return
 	}
 	fields := c.m.collect(sets, rt)
@@ -371,11 +395,13 @@ func (c *checker) compare(t *gast.Type, sets []gast.SelectionSet, o, v *jv, x wc
 			}
 			continue
 		}
-		cell := "typename"
+		fx := x.field(t, f.key, "typename", abstract)
 		if f.fieldDef != nil {
-			cell = c.m.cellOf(f.typ)
+			fx.cell = c.m.cellOf(f.typ)
+		} else {
+			fx = fx.typenameField(possibleNames(c.m.s, def))
 		}
-		c.compare(f.typ, f.sets, ov, v.get(f.key), x.field(t, f.key, cell, abstract))
+		c.compare(f.typ, f.sets, ov, v.get(f.key), fx)
 	}
 }
 
